@@ -373,6 +373,10 @@ func (g *G) genFaithful(id string) *History {
 			if g.chance(0.3) {
 				rp.Trailer = append(rp.Trailer, [2]string{"X-Other-Trailer", "t 2"})
 			}
+			if g.chance(0.4) {
+				// hop-by-hop fields in the trailer section: the fixed ones, and one the reply's Connection names
+				rp.Trailer = append(rp.Trailer, [2]string{pick(g, "Keep-Alive", "Proxy-Authenticate", "X-Hop", "X-Hop2"), "hop-t"})
+			}
 		}
 	case 1:
 		rp.NoCL = true
